@@ -6,7 +6,7 @@ operation of a session is a fault point; the sessions are run once per fault poi
   new     EKO.create(path) -> Builder -> build() (bootstrap) -> store two operators -> leave the context
   edit    an opened, writeable EKO whose archive holds OLD -> store an operator -> leave the context
   failing any of the two with an exception raised by the user code / a computation step inside the context
-ensures, for every fault point k:
+ensures, for every fault point k (a 'complete' archive is a closed tar in which every stored header has exactly one complete operator file):
   new   : after the failure the archive path does not exist, or holds the complete new archive;   edit: it holds OLD completely, or the complete new one;
           never an incomplete tar, never nothing where OLD was;
   then  : running the same session again on the same path, fault-free, succeeds and leaves the complete archive (a new EKO whose archive was already
@@ -100,7 +100,7 @@ def run(chk):
     def session_new(fs, user_failure=False):
         undo = G.install(fs, struct, inventory, metadata_mod)
         saved_save = items.Operator.save
-        items.Operator.save = lambda self, fd: (fd.write(b"operator-bytes"), self.error is None)[1]
+        items.Operator.save = lambda self, fd: (fs.tick("operator.save", getattr(fd, "path_", "?")), fd.write(b"operator-bytes"), self.error is None)[2]
         saved_meta = struct.Metadata
         struct.Metadata = lambda _path, origin, xgrid: type("M", (), {"path": _path, "raw": {"origin": "o", "xgrid": "x"}, "xgrid": xgrid, "origin": origin, "update": lambda self: None})()
         try:
@@ -125,7 +125,7 @@ def run(chk):
     def session_edit(fs, user_failure=False):
         undo = G.install(fs, struct, inventory, metadata_mod)
         saved_save = items.Operator.save
-        items.Operator.save = lambda self, fd: (fd.write(b"operator-bytes"), self.error is None)[1]
+        items.Operator.save = lambda self, fd: (fs.tick("operator.save", getattr(fd, "path_", "?")), fd.write(b"operator-bytes"), self.error is None)[2]
         try:
             if "/tmp/eko-edit" not in fs.dirs:
                 prepare_edit(fs)
@@ -145,7 +145,23 @@ def run(chk):
     ARCH = "/out/a.tar"
 
     def complete(c):
-        return isinstance(c, tuple) and c[0] == "TAR"
+        """a closed tar whose content is consistent: every stored header has exactly one operator file with complete content (OLD is the opaque previous archive)"""
+        if not (isinstance(c, tuple) and c[0] == "TAR"):
+            return False
+        if c[1] == ("OLD",):
+            return True
+        files = dict(f for snap in c[1] for f in snap)
+        if any(v == G.INCOMPLETE for v in files.values()):
+            return False
+        for d in ("/operators/", "/parts/", "/parts/matching/"):
+            heads = {p[: -len(".yaml")] for p in files if p.startswith(d) and p.count("/") == d.count("/") and p.endswith(".yaml")}
+            conts = [p for p in files if p.startswith(d) and p.count("/") == d.count("/") and not p.endswith(".yaml")]
+            for h in heads:
+                if sum(1 for p in conts if p.startswith(h + ".")) != 1:
+                    return False
+            if any(not any(p.startswith(h + ".") for h in heads) for p in conts):
+                return False
+        return True
 
     for name, session, old in (("new", session_new, None), ("edit", session_edit, ("TAR", ("OLD",)))):
         fn = "eko.io.struct:EKO.close"
